@@ -95,6 +95,8 @@ type Report struct {
 	SolverErrors   []string           `json:"solver_errors,omitempty"`
 	Bounds         map[string]string  `json:"bounds,omitempty"`
 	Emits          []string           `json:"emits,omitempty"`
+	Workers        int                `json:"path_workers,omitempty"`
+	MaxMergedPaths int                `json:"max_paths_in_a_merged_call,omitempty"`
 }
 
 type Engine struct {
@@ -110,10 +112,15 @@ type Engine struct {
 	solver  *smt.Solver
 	strIntern map[string]int
 	rep     *Report
-	findingKeys map[string]bool
+	shared  *Shared
 	errStringType types.Type
 	valIdx  map[*ssa.Function]map[ssa.Value]int
 	viMu    sync.Mutex
+}
+
+type flagRec struct {
+	p Ptr
+	t types.Type
 }
 
 type NativeFn func(ex *Exec, site ssa.Instruction, args []Value) Value
@@ -270,7 +277,7 @@ type Exec struct {
 	steps     int64
 	pinned    map[int]int
 	ubCache   map[int]int
-	readCache map[[2]int]*smt.Term
+	readCache *readCache
 	mergeMarks []int
 	unwind    int
 	clock     *smt.Term
@@ -288,6 +295,8 @@ type Exec struct {
 	nzMemo    map[int]*smt.Term
 	intFacts  map[string]ival
 	noteOnce  map[string]bool
+	autoMerge int
+	flags     map[string]flagRec
 }
 
 func (ex *Exec) tb() *smt.Table { return ex.eng.TB }
@@ -593,7 +602,7 @@ func (ex *Exec) oblige(kind, label string, bad *smt.Term, detail string) {
 		rep.Discharged++
 		return
 	}
-	if ex.eng.findingKeys[key] {
+	if ex.eng.shared.seen(key) {
 		// already reported for this site: continue under "no violation"
 		if bad.IsTrue() {
 			if kind == "frozen-write" {
@@ -632,10 +641,11 @@ func (ex *Exec) oblige(kind, label string, bad *smt.Term, detail string) {
 	}
 	f.Stack = ex.stack()
 	f.SolverS = time.Since(start).Seconds()
-	ex.eng.findingKeys[key] = true
-	rep.Findings = append(rep.Findings, f)
-	if ex.eng.Cfg.Verbose > 0 {
-		fmt.Printf("  finding: %s %s %s %s %s\n", kind, label, fn, pos, detail)
+	if ex.eng.shared.mark(key) {
+		rep.Findings = append(rep.Findings, f)
+		if ex.eng.Cfg.Verbose > 0 {
+			fmt.Printf("  finding: %s %s %s %s %s\n", kind, label, fn, pos, detail)
+		}
 	}
 	if bad.IsTrue() {
 		if kind == "frozen-write" {
@@ -806,16 +816,116 @@ func (e *Engine) IndexFunctions(pkgs []*ssa.Package) {
 	}
 }
 
-// Run explores all paths of the harness function.
+// Shared is the exploration state common to the workers of one harness: the
+// pending decision prefixes, the path count and the sites already reported.
+// Every worker is an Engine of its own (own term table and solver process).
+type Shared struct {
+	mu       sync.Mutex
+	cond     *sync.Cond
+	work     [][]int64
+	active   int
+	paths    int
+	maxPaths int
+	deadline time.Time
+	keys     map[string]bool
+	stopped  bool
+}
+
+func NewShared(cfg Config) *Shared {
+	s := &Shared{work: [][]int64{nil}, maxPaths: cfg.MaxPaths, deadline: cfg.Deadline, keys: map[string]bool{}}
+	s.cond = sync.NewCond(&s.mu)
+	return s
+}
+
+// Pending: number of prefixes waiting for a worker.
+func (s *Shared) Pending() int {
+	s.mu.Lock()
+	defer s.mu.Unlock()
+	if s.stopped {
+		return 0
+	}
+	return len(s.work)
+}
+
+// pop hands out the next prefix. block: wait for other workers' forks when the
+// queue is momentarily empty (the primary worker); otherwise give up at once.
+// reason is non-empty when exploration stops on a budget.
+func (s *Shared) pop(block bool) (prefix []int64, ok bool, reason string) {
+	s.mu.Lock()
+	defer s.mu.Unlock()
+	for {
+		if s.stopped {
+			return nil, false, ""
+		}
+		if len(s.work) > 0 {
+			if s.paths >= s.maxPaths {
+				s.stopped = true
+				s.cond.Broadcast()
+				return nil, false, fmt.Sprintf("path budget %d exhausted with %d prefixes pending", s.maxPaths, len(s.work))
+			}
+			if !s.deadline.IsZero() && time.Now().After(s.deadline) {
+				s.stopped = true
+				s.cond.Broadcast()
+				return nil, false, fmt.Sprintf("time budget exhausted with %d prefixes pending", len(s.work))
+			}
+			prefix = s.work[len(s.work)-1]
+			s.work = s.work[:len(s.work)-1]
+			s.active++
+			s.paths++
+			return prefix, true, ""
+		}
+		if s.active == 0 || !block {
+			return nil, false, ""
+		}
+		s.cond.Wait()
+	}
+}
+
+func (s *Shared) done(forks [][]int64) {
+	s.mu.Lock()
+	s.work = append(s.work, forks...)
+	s.active--
+	s.cond.Broadcast()
+	s.mu.Unlock()
+}
+
+func (s *Shared) seen(key string) bool {
+	s.mu.Lock()
+	defer s.mu.Unlock()
+	return s.keys[key]
+}
+
+// mark reports whether key was new.
+func (s *Shared) mark(key string) bool {
+	s.mu.Lock()
+	defer s.mu.Unlock()
+	if s.keys[key] {
+		return false
+	}
+	s.keys[key] = true
+	return true
+}
+
+// Run explores all paths of the harness function with this engine alone.
 func (e *Engine) Run(fn *ssa.Function) *Report {
+	return e.RunShared(fn, NewShared(e.Cfg), true, nil)
+}
+
+// RunShared is one worker's loop. primary: blocks on an empty queue until all
+// workers are idle. afterPath (optional) is called after every path, e.g. to
+// start further workers.
+func (e *Engine) RunShared(fn *ssa.Function, sh *Shared, primary bool, afterPath func()) *Report {
 	start := time.Now()
 	rep := &Report{Harness: fn.Name(), Reach: map[string]bool{}, Asserts: map[string]int{}, FuncInstrs: map[string]int{},
-		Stubs: map[string]int{}, Exits: map[string]int{}, Bounds: map[string]string{}}
+		Stubs: map[string]int{}, Exits: map[string]int{}, Bounds: map[string]string{}, Workers: 1}
 	e.rep = rep
-	e.findingKeys = map[string]bool{}
+	e.shared = sh
 	logf := ""
 	if d := os.Getenv("GOSYM_SMTLOG"); d != "" {
 		logf = d + "/" + fn.Name() + ".smt2"
+		if !primary {
+			logf = ""
+		}
 	}
 	s, err := smt.NewSolver(e.TB, smt.SolverSpec{Name: e.Cfg.Solver, TimeoutMs: e.Cfg.QueryTimeoutMs, LogFile: logf})
 	if err != nil {
@@ -824,18 +934,14 @@ func (e *Engine) Run(fn *ssa.Function) *Report {
 	}
 	e.solver = s
 	defer s.Close()
-	work := [][]int64{nil}
-	for len(work) > 0 {
-		if rep.Paths >= e.Cfg.MaxPaths {
-			e.addInconclusive(Inconclusive{Reason: fmt.Sprintf("path budget %d exhausted with %d prefixes pending", e.Cfg.MaxPaths, len(work))})
+	for {
+		prefix, ok, reason := sh.pop(primary)
+		if reason != "" {
+			e.addInconclusive(Inconclusive{Reason: reason})
+		}
+		if !ok {
 			break
 		}
-		if !e.Cfg.Deadline.IsZero() && time.Now().After(e.Cfg.Deadline) {
-			e.addInconclusive(Inconclusive{Reason: fmt.Sprintf("time budget exhausted with %d prefixes pending", len(work))})
-			break
-		}
-		prefix := work[len(work)-1]
-		work = work[:len(work)-1]
 		ex := e.newExec(prefix, fn.Name())
 		end := ex.runPath(fn)
 		rep.Paths++
@@ -856,9 +962,12 @@ func (e *Engine) Run(fn *ssa.Function) *Report {
 		if len(rep.SamplePaths) < 5 && end.kind == endReturn {
 			rep.SamplePaths = append(rep.SamplePaths, ex.describePath())
 		}
-		work = append(work, ex.tr.forks...)
+		sh.done(ex.tr.forks)
 		if e.Cfg.Verbose > 1 {
-			fmt.Printf("  path %d end=%d steps=%d pc=%d pending=%d\n", rep.Paths, end.kind, ex.steps, len(ex.pc), len(work))
+			fmt.Printf("  path %d end=%d steps=%d pc=%d pending=%d\n", rep.Paths, end.kind, ex.steps, len(ex.pc), sh.Pending())
+		}
+		if afterPath != nil {
+			afterPath()
 		}
 	}
 	rep.Queries = s.Queries
@@ -875,6 +984,95 @@ func (e *Engine) Run(fn *ssa.Function) *Report {
 	return rep
 }
 
+// MergeReports adds the workers' reports of one harness up.
+func MergeReports(reps []*Report) *Report {
+	if len(reps) == 1 {
+		return reps[0]
+	}
+	m := &Report{Harness: reps[0].Harness, Reach: map[string]bool{}, Asserts: map[string]int{}, FuncInstrs: map[string]int{},
+		Stubs: map[string]int{}, Exits: map[string]int{}, Bounds: map[string]string{}}
+	seenF := map[string]bool{}
+	seenN := map[string]bool{}
+	for _, r := range reps {
+		m.Workers += r.Workers
+		m.Paths += r.Paths
+		m.PathsReturned += r.PathsReturned
+		m.PathsPanicked += r.PathsPanicked
+		m.PathsDead += r.PathsDead
+		m.Branches += r.Branches
+		m.Forks += r.Forks
+		m.MergedCalls += r.MergedCalls
+		m.QuickDecisions += r.QuickDecisions
+		m.Obligations += r.Obligations
+		m.Discharged += r.Discharged
+		m.Steps += r.Steps
+		m.Assumes += r.Assumes
+		m.Queries += r.Queries
+		m.CacheHits += r.CacheHits
+		m.Unknowns += r.Unknowns
+		m.SolverS += r.SolverS
+		if r.SolverMaxS > m.SolverMaxS {
+			m.SolverMaxS = r.SolverMaxS
+		}
+		if r.WallS > m.WallS {
+			m.WallS = r.WallS
+		}
+		if r.MaxMergedPaths > m.MaxMergedPaths {
+			m.MaxMergedPaths = r.MaxMergedPaths
+		}
+		for _, f := range r.Findings {
+			if !seenF[f.Key()] {
+				seenF[f.Key()] = true
+				m.Findings = append(m.Findings, f)
+			}
+		}
+		for _, i := range r.Inconclusive {
+			dup := false
+			for _, x := range m.Inconclusive {
+				if x == i {
+					dup = true
+				}
+			}
+			if !dup && len(m.Inconclusive) < 50 {
+				m.Inconclusive = append(m.Inconclusive, i)
+			}
+		}
+		for k, v := range r.Reach {
+			m.Reach[k] = m.Reach[k] || v
+		}
+		for k, v := range r.Asserts {
+			m.Asserts[k] += v
+		}
+		for k, v := range r.FuncInstrs {
+			m.FuncInstrs[k] += v
+		}
+		for k, v := range r.Stubs {
+			m.Stubs[k] += v
+		}
+		for k, v := range r.Exits {
+			m.Exits[k] += v
+		}
+		for k, v := range r.Bounds {
+			m.Bounds[k] = v
+		}
+		for _, n := range r.Notes {
+			if !seenN[n] {
+				seenN[n] = true
+				m.Notes = append(m.Notes, n)
+			}
+		}
+		for _, p := range r.SamplePaths {
+			if len(m.SamplePaths) < 5 {
+				m.SamplePaths = append(m.SamplePaths, p)
+			}
+		}
+		m.SolverErrors = append(m.SolverErrors, r.SolverErrors...)
+		m.Emits = append(m.Emits, r.Emits...)
+	}
+	sort.Slice(m.Findings, func(i, j int) bool { return m.Findings[i].Key() < m.Findings[j].Key() })
+	return m
+}
+
 func (ex *Exec) describePath() string {
 	var parts []string
 	for k, v := range ex.choices {
@@ -887,7 +1085,7 @@ func (ex *Exec) describePath() string {
 func (e *Engine) newExec(prefix []int64, harness string) *Exec {
 	return &Exec{eng: e, pcSet: map[int]bool{}, tr: &traceCtx{prefix: prefix}, symSeq: map[string]int{},
 		globals: map[*ssa.Global]*Obj{}, inputSeen: map[string]bool{}, choices: map[string]int64{},
-		pinned: map[int]int{}, ubCache: map[int]int{}, readCache: map[[2]int]*smt.Term{}, unwind: e.Cfg.Unwind,
+		pinned: map[int]int{}, ubCache: map[int]int{}, readCache: &readCache{m: map[[2]int]*smt.Term{}}, unwind: e.Cfg.Unwind,
 		harness: harness, initDone: map[*ssa.Package]bool{}, noteOnce: map[string]bool{}}
 }
 
@@ -935,7 +1133,10 @@ func (ex *Exec) freshName(base string) string {
 }
 
 func (e *Engine) noteImpure(fn string) {
-	msg := "merge list: " + fn + " writes to pre-existing memory on some path; executed as an ordinary call there"
+	e.noteOnce("merge list: " + fn + " writes to pre-existing memory on some path; executed as an ordinary call there")
+}
+
+func (e *Engine) noteOnce(msg string) {
 	for _, n := range e.rep.Notes {
 		if n == msg {
 			return
